@@ -178,6 +178,13 @@ func (i *Index) unmarshalBinary(data []byte) error {
 		return fmt.Errorf("failed to read capacity: %w", err)
 	}
 	i.capacity = slottools.Uint64FromLEBytes(capacityBuf)
+	if i.end < i.start || i.capacity < i.end-i.start+1 {
+		// Get and Set index the values by (slot - start).
+		return fmt.Errorf("capacity %d does not cover slots %d..%d", i.capacity, i.start, i.end)
+	}
+	if i.capacity > uint64(reader.Len())/4 {
+		return fmt.Errorf("capacity %d exceeds the %d bytes of values", i.capacity, reader.Len())
+	}
 
 	i.values = make([]int64, i.capacity)
 	for j := uint64(0); j < i.capacity; j++ {
